@@ -115,7 +115,9 @@ impl Opt {
     }
 
     pub fn to_options(&self) -> Options<'_> {
-        let mut o = Options::new(self.width)
+        // the width goes in through `Options::new` or through the `width` builder
+        let mut o = if self.width % 2 == 0 { Options::new(self.width) } else { Options::new(self.width / 2).width(self.width) };
+        o = o
             .break_words(self.bw)
             .word_separator(sep_of(self.sep))
             .word_splitter(splitter_of(self.splitter))
